@@ -254,6 +254,28 @@ CLAIMED["C16"] = (
     "Coq proof (signature cache transparent under key separation; one-machine models) + metamorphic/differential correspondence",
     "DESIGN.md 5 C16", "Class-level State objects shared by subclasses are a known finding, not modelled.")
 
+CLAIMED["C06"] = (
+    "Theorems (Properties/C06.v), for any number of senders, any plan of sends and EVERY schedule (induction "
+    "over the schedule), at thread granularity (any thread may run between two protocol steps) and at asyncio "
+    "granularity: the callback blocks of different events never overlap (the log is a sequence of complete "
+    "Begin/End blocks plus at most one open block); per sender, what was begun, what is queued and what is "
+    "still to be sent is exactly its plan in its order (nothing lost, invented, reordered; nothing begun "
+    "twice); once all senders have returned the queue is empty and every event has been processed.  Tied to "
+    "/repo by a deterministic scheduler built on sys.settrace that parks every sender thread before every source "
+    "line of engines/*.py and event.py and runs one line of one thread at a time following a schedule: every "
+    "preemption point of sender 0 crossed with 8 preemption lengths of sender 1 (2 senders), plus random "
+    "schedules with 1-6 preemptions for 2-4 senders x 1-2 events; the protocol steps actually executed (put, "
+    "try-lock, pop, end of callbacks, emptiness test, release, re-check; recognised by line text) are replayed in "
+    "the Coq model, which must yield the same pop order and popping thread, the same leftover queue and the same "
+    "returned senders; the real begin/end markers must not overlap.  asyncio: 2-4 sender tasks whose callbacks "
+    "(and a nested send) await gates opened one at a time in schedule order; exactly-once, sender order, no "
+    "overlap and empty queue are checked on what happened.",
+    "Coq proof (protocol invariants by induction over schedules, all senders / plans / schedules) + schedule-controlled differential correspondence (sys.settrace scheduler)",
+    "DESIGN.md 5 C06",
+    "Partial: the theorem is about the protocol at source-line granularity; preemption inside one source line "
+    "(bytecode level), the atomicity of deque.append / popleft and Lock.acquire under the GIL, and asyncio's own "
+    "scheduler are trusted.  One genuine defect repaired (fix: f9a2952, stranded event).")
+
 PENDING_REASON = "check not built yet in this session (work in progress; see DESIGN.md 9 for the order of work)"
 
 ALL = [f"C{i:02d}" for i in range(1, 19)]
